@@ -35,15 +35,15 @@ pub fn c13_powi_0_1() {
     reached();
 }
 
-//@ id=C13 tier=quick to=1800 cfg=std stub=1 unwind=10 stubs="MulAssign<&TwoFloat> -> UF; TwoFloat::recip -> UF" bounds="0 < n <= 255 symbolic" desc="powi(x,-n) is bit-identical to powi(x,n).recip() for every x and 0 < n <= 255, for every pure function in place of the multiplication and of recip (UF stubs)"
+//@ id=C13 tier=quick to=1800 cfg=std stub=1 unwind=6 stubs="MulAssign<&TwoFloat> -> UF; TwoFloat::recip -> UF" bounds="0 < n <= 15 symbolic" desc="powi(x,-n) is bit-identical to powi(x,n).recip() for every x and 0 < n <= 15, for every pure function in place of the multiplication and of recip (UF stubs)"
 #[cfg_attr(all(kani, feature = "stubs"), kani::proof)]
-#[cfg_attr(all(kani, feature = "stubs"), kani::unwind(10))]
+#[cfg_attr(all(kani, feature = "stubs"), kani::unwind(6))]
 #[cfg_attr(all(kani, feature = "stubs"), kani::stub(<twofloat::TwoFloat as core::ops::MulAssign<&twofloat::TwoFloat>>::mul_assign, crate::uf::uf_mul_assign_t))]
 #[cfg_attr(all(kani, feature = "stubs"), kani::stub(twofloat::TwoFloat::recip, crate::uf::uf_u1))]
 pub fn c13_powi_neg_is_recip() {
     let x = any_tf();
     let n = any_i32();
-    assume(n > 0 && n <= 255);
+    assume(n > 0 && n <= 15);
     let a = x.powi(-n);
     let b = x.powi(n).recip();
     assert!(same(a, b));
@@ -123,5 +123,28 @@ pub fn sqrt_accuracy_cell(bh: i32, kx: i32, m: u32) {
         .add(prod(r.hi(), r.lo(), EMIN).unwrap().shl_small(1))
         .add(prod(r.lo(), r.lo(), EMIN).unwrap());
     assert!(within(r2.sub(v), v, 106, |a| a.shl_small(6).sub(a)));
+    reached();
+}
+
+/// powi(-1, n) == (-1)^n exactly, ground base (pinned), real multiplications and recip, concrete n
+/// (covers n = i32::MIN where |n| = 2^31 is even, and the largest odd exponents)
+pub fn powi_minus_one(n: i32) {
+    let x = gtf(-1.0, 0.0);
+    let r = x.powi(n);
+    let want = if n % 2 == 0 { 1.0 } else { -1.0 };
+    assert!(r.hi() == want && r.lo() == 0.0);
+    reached();
+}
+
+/// powi(1 + 2^-30, n) for n = i32::MIN against the same value obtained by squaring: x^(2^31) = (x^(2^30))^2,
+/// real code: both sides are valid and agree within 2^-70 relative (rules out an off-by-one exponent)
+pub fn powi_min_vs_square() {
+    let x = gtf(1.0 + 9.313225746154785e-10, 0.0);
+    let a = x.powi(i32::MIN);
+    let h = x.powi(-(1 << 30));
+    let b = h * h;
+    assert!(spec_valid(a) && spec_valid(b));
+    let d = a - b;
+    assert!(d.hi().abs() <= a.hi().abs() * pow2(-70));
     reached();
 }
